@@ -1,8 +1,10 @@
 (* Props/C02.v — quantization preserves the graph skeleton and I/O contract.
    Step-level statements (the composition over the whole pipeline is
    validated by correspondence E and the skeleton oracle on every run). *)
-From VF Require Import Base.Prelude Gen.Enums Model.Graph Gen.InstChecks
-     Model.Perform Spec.WF Proofs.ListFacts Proofs.PerformStep.
+From Coq Require Import Sorted.
+From VF Require Import Base.Prelude Gen.Enums Gen.Configs Gen.Scopes Model.Recipe Model.Check
+     Model.Graph Gen.InstChecks Model.Insts Model.Perform Model.Plan Model.Pipeline Spec.WF
+     Proofs.ListFacts Proofs.PerformStep Proofs.PerformInv Proofs.InstsSane Proofs.SkeletonInv.
 
 (* One insertion touches the wiring of nothing but the listed consumers, and
    there it replaces exactly the occurrences of the transformed tensor by the
@@ -61,6 +63,53 @@ Proof.
   destruct (Z.eqb (sd_sg s0) sgid); cbn; auto.
 Qed.
 Print Assumptions C02_signature_follows_output.
+
+(* COMPOSITION (Proofs/SkeletonInv.v).  [skel g0 g' om] says: through the
+   strictly increasing position map om, the op at om[i] of the result is
+   original op i — same opcode index, same options identity, same results, and
+   every operand DERIVES from the original operand through inserted ops only;
+   every other op of the result is an inserted one-in/one-out op writing a NEW
+   tensor; every original tensor is still there under its index with its name
+   and shape; graph inputs are unchanged; graph outputs derive from the
+   original outputs.  I.e. deleting the inserted ops and following them back
+   yields exactly the input graph.  It holds for the result of running ANY
+   exact instruction lists, hence for the whole pipeline model. *)
+Theorem C02_transform_graph_preserves_skeleton :
+  forall m tis m',
+    Forall wf_sg (m_subgraphs m) -> uids_ok m ->
+    (forall ti i, In ti tis -> In i (ti_insts ti) -> sane m (ti_sg ti) i) ->
+    transform_graph m tis = Ok m' ->
+    length (m_subgraphs m') = length (m_subgraphs m) /\
+    forall k g0 g', nth_opt (m_subgraphs m) k = Some g0 -> nth_opt (m_subgraphs m') k = Some g' ->
+      exists om, StronglySorted Z.lt om /\ skel g0 g' om.
+Proof. exact transform_graph_skeleton. Qed.
+Print Assumptions C02_transform_graph_preserves_skeleton.
+
+Theorem C02_pipeline_preserves_skeleton :
+  forall mk_cls matches rules scope_id m scopes stats m' plans,
+    Forall wf_sg (m_subgraphs m) -> uids_ok m ->
+    pipeline_cls mk_cls matches rules scope_id m scopes stats = Ok (m', plans) ->
+    length (m_subgraphs m') = length (m_subgraphs m) /\
+    forall k g0 g', nth_opt (m_subgraphs m) k = Some g0 -> nth_opt (m_subgraphs m') k = Some g' ->
+      exists om, StronglySorted Z.lt om /\ skel g0 g' om.
+Proof.
+  intros mk_cls matches rules scope_id m scopes stats m' plans Hwf Hu H. unfold pipeline_cls in H.
+  destruct (plan_checked_cls mk_cls matches rules scope_id m scopes stats) as [r|]; cbn [bind] in H; [|discriminate].
+  match type of H with (tis <- ?x ;; _) = _ => destruct x as [tis|] eqn:Ei end; cbn [bind] in H; [|discriminate].
+  destruct (transform_graph m tis) as [m2|] eqn:Et; cbn [bind] in H; [|discriminate].
+  inversion H; subst. eapply transform_graph_skeleton; [exact Hwf|exact Hu| |exact Et].
+  eapply insts_of_params_sane. exact Ei.
+Qed.
+Print Assumptions C02_pipeline_preserves_skeleton.
+
+(* what the skeleton relation contains, spelled out for one original op *)
+Theorem C02_skeleton_unfolded :
+  forall g0 g om i o0 p,
+    skel g0 g om -> nth_opt (sg_ops g0) i = Some o0 -> nth_opt om i = Some p ->
+    exists o, op_at g (Z.to_nat p) o /\ o_code o = o_code o0 /\ o_uid o = o_uid o0 /\
+              o_outs o = o_outs o0 /\ Forall2 (derived g) (o_ins o) (o_ins o0).
+Proof. intros g0 g om i o0 p S H1 H2. destruct (sk_orig _ _ _ S _ _ _ H1 H2) as (_ & o & H). exists o. exact H. Qed.
+Print Assumptions C02_skeleton_unfolded.
 
 Example C02_nonvacuous :
   fix_sigs [{| sd_sg := 0; sd_inputs := [0]; sd_outputs := [2] |};
